@@ -194,6 +194,9 @@ func vdbScanAgreesWithReads(c *Ctx, tag string, v *vView, p []byte, entries [][2
 		has, _ := v.d.Has(k)
 		got, gerr := v.d.Get(k)
 		if has || gerr == nil {
+			if v.root().hist && len(got) == 0 {
+				tag += " historical-scan-drops-empty-valued-keys" // the shape of former finding F3b (fixed by 734ff49)
+			}
 			c.Fail("%s: view %s@%s scan %s = [%s] misses key %s, which Get/Has of the same view report present (value %s, has=%v) — a scan must show every key that exists as of that commit", tag, v.name, v.version, hx(p), entriesString(entries), hx(k), hx(got), has)
 			return false
 		}
